@@ -11,6 +11,7 @@ GenSpec == GenInit /\ [][GenNext]_<<vars, hist>>
 Bound == /\ Len(hist) <= MaxDepth
          /\ \A h \in H : Len(val[h]) <= MaxLen /\ rec[h].size <= AllocSize(MaxLen + 1)
 Sk(h)  == <<Len(rec[h].data), rec[h].size, rec[h].imm, rec[h].nc, rec[h].typ>>
-Skel  == <<Sk(1), [h \in H \ {1} |-> <<rec[h].typ, h \in share[1]>>]>>
+\* the C++ call sets also distinguish empty / non-empty for the other handles (copy/move between two containers)
+Skel  == <<Sk(1), [h \in H \ {1} |-> <<rec[h].typ, h \in share[1], Api # "c" /\ Len(rec[h].data) > 0>>]>>
 Emit  == PrintT(<<"BEHAV", ToJson(hist')>>)
 =============================================================================
